@@ -29,7 +29,7 @@ func init() {
 		MinEvals:    floor(100000, 500000),
 		MinDistinct: floor(50000, 100000),
 		RequiredCells: func(string) []string {
-			return []string{"rel/equal", "rel/parent", "rel/child", "rel/textual-prefix", "rel/sibling", "rel/top", "parse/accept", "parse/reject-noslash", "parse/reject-trailing", "parse/reject-upper", "join", "transitivity/chain", "non-ascii-pairs"}
+			return []string{"rel/equal", "rel/parent", "rel/child", "rel/textual-prefix", "rel/sibling", "rel/top", "parse/accept", "parse/reject-noslash", "parse/reject-trailing", "parse/reject-upper", "join", "transitivity/chain", "non-ascii-pairs", "lookalike-pairs"}
 		},
 	})
 	addSelfTest("R-cmd vs in-tree TestCovers vectors", selfTestCmd)
@@ -180,6 +180,47 @@ func runC15(w *mon.W) {
 				}
 				if got && a != b && command.Command(b).Covers(command.Command(a)) {
 					w.Violate("covers/not-antisymmetric", fmt.Sprintf("%q and %q cover each other", a, b), map[string]any{"a": a, "b": b})
+				}
+			}
+		}
+	}
+	// a third universe: segments that are different strings but equal under some normalisation a
+	// comparison might (wrongly) apply - Unicode case folding (final sigma, micro sign, theta
+	// symbol, long s, sharp s), NFC vs NFD, full-width forms, percent-encoding, zero-width
+	// joiner, trailing dot / space - all ordered pairs of commands of <=2 such segments
+	{
+		segs := []string{"σ", "ς", "μ", "µ", "θ", "ϑ", "s", "ſ", "ß", "ss", "é", "e\u0301", "a", "ａ", "%61", "a\u200d", "a.", "a ", "k", "\u0138"}
+		u := []string{"/"}
+		for _, x := range segs {
+			u = append(u, "/"+x)
+		}
+		for _, x := range segs {
+			for _, y := range segs {
+				u = append(u, "/"+x+"/"+y)
+			}
+		}
+		kk := 0
+		for _, a := range u {
+			for _, b := range u {
+				kk++
+				if !w.Mine(kk) {
+					continue
+				}
+				ca, ea := command.Parse(a)
+				cb, eb := command.Parse(b)
+				if ea != nil || eb != nil {
+					w.Violate("parse/rejects-valid/lookalike", fmt.Sprintf("Parse rejects a lower-case command: %q (%v) / %q (%v)", a, ea, b, eb), map[string]any{"a": a, "b": b})
+					continue
+				}
+				got := ca.Covers(cb)
+				want := ref.CmdCovers(a, b)
+				w.Eval(1)
+				w.Cover("lookalike-pairs")
+				if a != b {
+					w.Distinct("lookalike", a, b)
+				}
+				if got != want {
+					w.Violate(fmt.Sprintf("covers/lookalike/rel=%s/got=%v", cmdRel(a, b), got), fmt.Sprintf("Command(%q).Covers(%q) = %v, segment-prefix model says %v (the two differ only up to a normalisation)", a, b, got, want), map[string]any{"a": a, "b": b, "a_hex": mon.Hex([]byte(a)), "b_hex": mon.Hex([]byte(b))})
 				}
 			}
 		}
